@@ -12,10 +12,10 @@ from sa.order import Order
 from sa.regex import Compiled, DFA, difference_witness
 from sa.selftest import Edit, Variant
 
-from sa.texts import T as _T
+from sa.texts import T as _TX
 
-EXPLANATION = _T["C01"]["explanation"] + " Not decided: " + _T["C01"]["not_decided"] + "."
-ASSUMPTIONS = _T["C01"]["assumptions"]
+EXPLANATION = _TX["C01"]["explanation"] + " Not decided: " + _TX["C01"]["not_decided"] + "."
+ASSUMPTIONS = _TX["C01"]["assumptions"]
 P = "C01"
 
 STAGES = ["remove_nonsvg_content", "remove_processing_instructions", "remove_anonymous_symbols", "remove_title_meta_desc",
